@@ -1,38 +1,54 @@
 #!/usr/bin/env python3
-"""Copies the verified seeded changes into /verif/seeded/<id>/ and records which check catches them.
-usage: build_seeded.py [ids...]   (runs tools/try_patch.sh for each seed against the check(s) of its property)"""
+"""Copies verified seeded changes from /tmp/seedstage/<id>/ into /verif/seeded/<id>/ and records which check catches them.
+usage: build_seeded.py [--no-run] [ids...]
+For every seed it runs tools/try_patch.sh (scratch worktree of /repo, never /repo itself) against the quick check of its property
+(and the extra checks listed in EXTRA) and stores the outcome in meta.json."""
 import json, os, re, shutil, subprocess, sys
-SRC = '/tmp/seed/out'
+from concurrent.futures import ThreadPoolExecutor
+SRC = '/tmp/seedstage'
 DST = '/verif/seeded'
-EXTRA = {'C02-m2': ['C01'], 'C06-m1': ['C09'], 'C07-m1': ['C09'], 'C09-m1': ['C07'], 'C09-m2': ['C06']}
+EXTRA = {'C02-m2': ['C01'], 'C06-m1': ['C09'], 'C07-m1': ['C09'], 'C09-m1': ['C07'], 'C09-m2': ['C06'], 'C09-m3': ['C01', 'C02'], 'C01-m4': ['C09'],
+         'C07-m4': ['C09'], 'C10-m3': ['C15']}
+args = [a for a in sys.argv[1:] if not a.startswith('--')]
+norun = '--no-run' in sys.argv
 head = subprocess.check_output(['git', '-C', '/repo', 'rev-parse', '--short', 'HEAD'], text=True).strip()
-ids = sys.argv[1:] or sorted(d + '-' + m for d in os.listdir(SRC) if d.startswith('C') for m in os.listdir(os.path.join(SRC, d)) if m.startswith('m'))
-for sid in ids:
-    pid, m = sid.split('-')
-    src = os.path.join(SRC, pid, m)
-    dst = os.path.join(DST, sid)
+ids = args or sorted(os.listdir(SRC))
+
+
+def one(sid):
+    pid = sid.split('-')[0]
+    src, dst = os.path.join(SRC, sid), os.path.join(DST, sid)
+    ver = open('/tmp/seedverify/%s.txt' % sid).read().strip() if os.path.exists('/tmp/seedverify/%s.txt' % sid) else ''
+    if "applied=yes tests='75 passed" not in ver or 'demo_without=0 demo_with=1' not in ver:
+        return sid, 'NOT VERIFIED: %s' % ver
     os.makedirs(dst, exist_ok=True)
-    patch = '/tmp/seedverify/%s.patch' % sid
-    if not os.path.exists(patch):
+    patch = os.path.join(src, 'patch.applied.diff')
+    if not (os.path.exists(patch) and os.path.getsize(patch) > 0):
         patch = os.path.join(src, 'patch.diff')
     shutil.copy(patch, os.path.join(dst, 'patch.diff'))
     for f in ('demo.py', 'notes.md', 'pandas.py'):
         if os.path.exists(os.path.join(src, f)):
             shutil.copy(os.path.join(src, f), os.path.join(dst, f))
-    ver = open('/tmp/seedverify/%s.txt' % sid).read().strip() if os.path.exists('/tmp/seedverify/%s.txt' % sid) else ''
     notes = open(os.path.join(src, 'notes.md')).read() if os.path.exists(os.path.join(src, 'notes.md')) else ''
-    det = {}
-    for chk in [pid] + EXTRA.get(sid, []):
-        p = subprocess.run(['/verif/tools/try_patch.sh', os.path.join(dst, 'patch.diff'), chk, '--jobs', '14'], capture_output=True, text=True, timeout=3600)
-        out = p.stdout
-        summ = [l for l in out.splitlines() if l.startswith('SUMMARY')]
-        det[chk] = {'violation_lines': len([l for l in out.splitlines() if l.startswith('VIOLATION')]),
-                    'exit': (re.findall(r'EXIT=(\d+)', out) or ['?'])[-1], 'summary': summ[-1] if summ else out[-300:],
-                    'first_message': next((l.strip()[:400] for l in out.splitlines() if 'REPLAY-VIOLATED' in l), '')}
-    meta = {'id': sid, 'property': pid, 'origin': 'independent sub-agent given only the property text and a scratch worktree',
-            'needs_to_manifest': ' '.join(notes.split())[:900],
-            'verified_by_me': {'what_i_ran': 'tools/verify_seeds.sh: patch applied in a scratch worktree of /repo; full repository test suite with the change; '
-                                             'demo.py with and without the change', 'result': ver, 'repo_head_at_verification': head},
+    old = json.load(open(os.path.join(dst, 'meta.json'))) if os.path.exists(os.path.join(dst, 'meta.json')) else {}
+    det = old.get('detected_by_checks', {})
+    if not norun:
+        for chk in [pid] + EXTRA.get(sid, []):
+            p = subprocess.run(['/verif/tools/try_patch.sh', os.path.join(dst, 'patch.diff'), chk, '--jobs', '8'], capture_output=True, text=True, timeout=7200)
+            out = p.stdout
+            summ = [l for l in out.splitlines() if l.startswith('SUMMARY')]
+            det[chk] = {'violation_lines': len([l for l in out.splitlines() if l.startswith('VIOLATION')]),
+                        'exit': (re.findall(r'EXIT=(\d+)', out) or ['?'])[-1], 'summary': summ[-1] if summ else out[-300:],
+                        'first_message': next((l.strip()[:400] for l in out.splitlines() if 'REPLAY-VIOLATED' in l), ''), 'repo_head': head}
+    meta = {'id': sid, 'property': pid, 'origin': 'independent sub-agent given only the property text and a private scratch worktree of /repo',
+            'needs_to_manifest': ' '.join(notes.split())[:1200],
+            'verified_by_me': {'what_i_ran': 'tools/verify_seeds.sh: patch applied in a scratch worktree of /repo HEAD; full repository test suite with the '
+                                             'change; demo.py against the worktree with and without the change', 'result': ver, 'repo_head_at_verification': head},
             'detected_by_checks': det}
     json.dump(meta, open(os.path.join(dst, 'meta.json'), 'w'), indent=1)
-    print(sid, {k: (v['violation_lines'], v['exit']) for k, v in det.items()}, flush=True)
+    return sid, {k: (v['violation_lines'], v['exit']) for k, v in det.items()}
+
+
+with ThreadPoolExecutor(max_workers=2) as ex:
+    for sid, r in ex.map(one, ids):
+        print(sid, r, flush=True)
